@@ -539,6 +539,56 @@ pub fn suite_cap(ctx: &mut Ctx) {
         check_cap(ctx, &c, &cap, &req);
         ctx.count("cap.big_cases");
     }
+    // one Myers call whose ranges are more than 8192 edits apart (implementation only: the validators
+    // decide, the model is not run at this size)
+    for (k, c) in far_apart_cases(ctx.seed).into_iter().enumerate() {
+        if !ctx.take() {
+            continue;
+        }
+        let req = format!(
+            "capture {} - 0 | <far-apart case #{}: {} old / {} new items, see far_apart_cases in harness/src/suites/algs.rs>",
+            alg_name(c.alg), k, c.old.len(), c.new.len()
+        );
+        let cap = run_capture(&c);
+        check_cap(ctx, &c, &cap, &req);
+        ctx.count("cap.far_apart_cases");
+    }
+}
+
+/// Inputs that need more than 8192 edits inside one divide step of Myers.
+pub fn far_apart_cases(seed: u64) -> Vec<Case> {
+    let mut v = vec![];
+    // a b p | a q b blocks: the minimal script is unique, lone deletes and lone inserts separated by equal items;
+    // the new side starts with the item that also ends both sides
+    let blocks_of = |blocks: u32, lead: &[u32], gone: &[u32]| -> (Vec<u32>, Vec<u32>) {
+        let marker = 0u32;
+        let mut old = lead.to_vec();
+        let mut new = lead.to_vec();
+        old.extend_from_slice(gone);
+        new.push(marker);
+        for i in 0..blocks {
+            let (a, p, b, q) = (4 * i + 1, 4 * i + 2, 4 * i + 3, 4 * i + 4);
+            old.extend_from_slice(&[a, p, b]);
+            new.extend_from_slice(&[a, b, q]);
+        }
+        old.push(marker);
+        new.push(marker);
+        (old, new)
+    };
+    let (o, n) = blocks_of(4200, &[], &[]);
+    v.push(Case::full(Algorithm::Myers, &o, &n));
+    let (o, n) = blocks_of(4200, &[u32::MAX], &[u32::MAX - 1]);
+    v.push(Case::full(Algorithm::Patience, &o, &n));
+    // two unrelated sequences over a small alphabet sharing their first and last item
+    let mut rng = Rng::new(seed ^ 0xfa4);
+    let mut o: Vec<u32> = (0..9000).map(|_| rng.below(3) as u32).collect();
+    let mut n: Vec<u32> = (0..9000).map(|_| 1 + rng.below(3) as u32).collect();
+    o.insert(0, 7);
+    n.insert(0, 7);
+    o.push(1);
+    n.push(1);
+    v.push(Case::full(Algorithm::Myers, &o, &n));
+    v
 }
 
 /* ------------------------------------------------------------------------------------------ */
@@ -987,12 +1037,53 @@ pub fn suite_script(ctx: &mut Ctx) {
 /// oracle constant for C19: comparisons <= COST_C * (N+M+1) * (D+1)
 pub const COST_C: u64 = 3;
 
+/// Long near-identical inputs whose labels are regular bit patterns (multiples of 2^16, of 2^20, arithmetic
+/// progressions with a large stride): implementation only, the counters are checked against the bounds.
+fn structured_key_cases(ctx: &mut Ctx) {
+    let n = if ctx.tier == Tier::Quick { 20_000u32 } else { 60_000 };
+    let shapes: [(&str, Box<dyn Fn(u32) -> u32>); 4] = [
+        ("i<<16", Box::new(|i| i << 16)),
+        ("i<<20", Box::new(|i| (i % 4096) << 20 | (i / 4096))),
+        ("i*0x10001", Box::new(|i| i.wrapping_mul(0x10001))),
+        ("i*2^12+7", Box::new(|i| (i << 12) + 7)),
+    ];
+    for (name, f) in shapes.iter() {
+        let old: Vec<u32> = (0..n).map(|i| f(i)).collect();
+        let mut new = old.clone();
+        new.remove((n / 3) as usize);
+        new[(n / 2) as usize] = u32::MAX;
+        for alg in [Algorithm::Myers, Algorithm::Patience] {
+            let c = Case::full(alg, &old, &new);
+            let req = format!("diff {} none - - 1 0 | <{} labels {}> | <the same with one item removed and one replaced> | 0 {} 0 {}", alg_name(alg), n, name, old.len(), new.len());
+            let out = run_case(&c);
+            ctx.count("cost.structured_key_cases");
+            if out.status != Status::Ok {
+                ctx.violation("C19", &req, format!("{:?}", out.status));
+                continue;
+            }
+            let calls = oracle::strip_finish(&out.trace);
+            let (d, ins, _) = oracle::cost(&calls);
+            let dd = (d + ins) as u64;
+            let nm = (old.len() + new.len()) as u64;
+            if out.cmps > COST_C * (nm + 1) * (dd + 1) {
+                ctx.violation("C19", &req, format!("{} comparisons > {} * (N+M+1) * (D+1) with N+M = {}, D = {}", out.cmps, COST_C, nm, dd));
+            }
+            if out.same_cmps > 3 * nm + 64 {
+                ctx.violation("C19", &req, format!("{} same-side element comparisons for N+M = {} (hash-based uniqueness must stay linear)", out.same_cmps, nm));
+            }
+        }
+    }
+}
+
 /// C19: comparison counts on the property's families
 pub fn suite_cost(ctx: &mut Ctx) {
     let (count, maxsz) = match ctx.tier {
         Tier::Quick => (700, 600),
         Tier::Thorough => (6000, 3000),
     };
+    if ctx.take() {
+        structured_key_cases(ctx);
+    }
     for i in 0..count {
         if !ctx.take() {
             continue;
@@ -1045,7 +1136,7 @@ pub fn suite_cost(ctx: &mut Ctx) {
             }
             // same-side comparisons happen only inside the hash maps of `unique`: a few per item
             // (equal keys and rare tag collisions), never proportional to N^2
-            let same_bound = 8 * nm + 64;
+            let same_bound = 3 * nm + 64;
             ctx.max(&format!("cost.max_same_side_per_item_milli.{}", alg_name(alg)), out.same_cmps * 1000 / (nm + 1));
             if out.same_cmps > same_bound {
                 ctx.violation("C19", &req, format!("{} same-side element comparisons for N+M = {} (hash-based uniqueness must stay linear)", out.same_cmps, nm));
